@@ -252,6 +252,8 @@ def run_plan(plan: dict) -> RunResult:
                 region.circuit.send(copy)
             except Exception as e:
                 rec.add(kind="copy_send", tag=tag, how=how, ok=False, exc=type(e).__name__)
+                # the first send of a copy obtained from take() is always legal
+                violate("C07/ownership/legal-copy-send-rejected", tag=tag, how=how, exc=repr(e)[:160])
                 raise
             d = dirname(copy)
             rec.copy_sends[(region.circuit_addr, d, copy.packet_id)] = tag
